@@ -194,7 +194,7 @@ Definition e2e12_verdict (outs : list binding) (keys seen : list skey) (lim : op
   end.
 
 (* ---- Table.Reduce / GROUP BY ------------------------------------------------------------------------------- *)
-Definition cur_fixes : pg_fixes := mkFixes true true true.   (* repo commits 3cb5b46+6f0bb79, 7999921, 33c29dc *)
+Definition cur_fixes : pg_fixes := mkFixes true true true true.   (* repo commits 3cb5b46+6f0bb79, 7999921, 33c29dc, 0ca8278 *)
 
 (* float64 results: the model does not know Go's rendering of the sum, compare the value only *)
 Definition cell_agree (m o : cell) : bool :=
@@ -457,6 +457,23 @@ Definition tail_verdict (group_by : list binding) (projs : list proj) (keys : li
         end
     | _, _ => N.eqb outcome 1
     end in
-  verdict (rows_fmt_ok base) agree false.
+  let v := verdict (rows_fmt_ok base) agree false in
+  (* SPEC of a plain projection: every output column holds the value its binding has IN THE SOLUTION (all aliases are
+     assigned simultaneously).  4 = the engine agrees with the model but not with that. *)
+  match group_by, cfg, hav with
+  | [], Ok c, Ok h =>
+      let simul (r : row) : row :=
+        fold_left (fun acc p => match rget r (p_bind p) with
+                                | Some x => rset acc (proj_out p) x
+                                | None => acc
+                                end) projs r in
+      let ident := map (fun p => mkProj (proj_out p) None OpNone false) projs in
+      match execute_tail_with (@go_isort row) cur_fixes (mkTail [] ident c h lim)
+                              (mkTable (bs ++ dedup_bindings outs bs) (map simul base)) with
+      | Ok t => if N.eqb v 0 && N.eqb outcome 0 && negb (multiset_agree obs (t_rows t) out) then 4%N else v
+      | _ => v
+      end
+  | _, _, _ => v
+  end.
 
 Definition verdicts {A} (f : A -> N) (l : list A) : list N := map f l.
